@@ -710,7 +710,7 @@ func (k *fakeWalletKit) FundPsbt(ctx context.Context, in *walletrpc.FundPsbtRequ
 	}
 	cur := k.f.current()
 	n.mu.Lock()
-	k.f.funded[tx.TxHash().String()] = &lndFunded{swapIdx: idx, params: cur.opening, amount: amount, fee: fee}
+	k.f.funded[tx.TxIn[0].PreviousOutPoint.String()] = &lndFunded{swapIdx: idx, params: cur.opening, amount: amount, fee: fee}
 	n.mu.Unlock()
 	return &walletrpc.FundPsbtResponse{FundedPsbt: buf.Bytes(), ChangeOutputIndex: -1}, nil
 }
@@ -728,6 +728,14 @@ func (k *fakeWalletKit) FinalizePsbt(ctx context.Context, in *walletrpc.Finalize
 	final := packet.UnsignedTx.Copy()
 	for i := range final.TxIn {
 		final.TxIn[i].Witness = wire.TxWitness{bytes.Repeat([]byte{0x30}, 71), n.BtcWallet.key(0).PubKey().SerializeCompressed()}
+		if n.w.Plan.Scn.Layout[n.ID].NestedInput {
+			// the wallet picked a nested-segwit (np2wkh) coin: finalising adds a scriptSig, and
+			// the id of the final transaction is no longer the id of the unsigned one
+			pkh := btcutil.Hash160(n.BtcWallet.key(0).PubKey().SerializeCompressed())
+			final.TxIn[i].SignatureScript = append([]byte{0x16, 0x00, 0x14}, pkh...)
+			packet.Inputs[i].FinalScriptSig = final.TxIn[i].SignatureScript
+			n.w.Probe("layout:nested-segwit-input")
+		}
 		var wb bytes.Buffer
 		psbtWriteWitness(&wb, final.TxIn[i].Witness)
 		packet.Inputs[i].FinalScriptWitness = wb.Bytes()
@@ -755,9 +763,13 @@ func (k *fakeWalletKit) PublishTransaction(ctx context.Context, in *walletrpc.Tr
 	if err := tx.Deserialize(bytes.NewReader(in.TxHex)); err != nil {
 		return nil, status.Error(codes.InvalidArgument, err.Error())
 	}
-	// the unsigned txid equals the txid (segwit inputs)
+	// (the id of the final transaction differs from the unsigned one's when an input needs a
+	// scriptSig, so fundings are remembered by the outpoint they spend)
 	n.mu.Lock()
-	fd := k.f.funded[tx.TxHash().String()]
+	var fd *lndFunded
+	if len(tx.TxIn) > 0 {
+		fd = k.f.funded[tx.TxIn[0].PreviousOutPoint.String()]
+	}
 	n.mu.Unlock()
 	rawHex := hex.EncodeToString(in.TxHex)
 	if fd == nil {
